@@ -208,4 +208,9 @@ theorem add_spec (m : Msg) (t : Nat) (v : Bytes) (h1 : 20 + m.length ≤ m.len) 
     simp only [Msg.raw, hlen2]
     rw [b1, b3, hraw0, hp0]; simp [zeros]
 
+theorem pad4_lt' (n : Nat) : Stun.Spec.pad4 n < 4 := by unfold Stun.Spec.pad4; omega
+
+theorem tlvBytes_length' (t : Nat) (v p : Bytes) : (Stun.Spec.tlvBytes t v p).length = 4 + v.length + p.length := by
+  simp [Stun.Spec.tlvBytes, put16]; omega
+
 end Stun.BuildProofs
